@@ -3382,8 +3382,9 @@ AUTHOR
 int32
 HMCPcloseAID(accrec_t *access_rec /* IN:  access record of file to close */)
 {
-    chunkinfo_t *info      = NULL; /* special information record */
-    int32        ret_value = SUCCEED;
+    chunkinfo_t *info         = NULL;  /* special information record */
+    intn         flush_failed = FALSE; /* writing the cached chunks out failed */
+    int32        ret_value    = SUCCEED;
 
     /* check args */
     info = (chunkinfo_t *)access_rec->special_info;
@@ -3395,13 +3396,15 @@ HMCPcloseAID(accrec_t *access_rec /* IN:  access record of file to close */)
     if (--(info->attached) == 0) {
         if (info->chk_cache != NULL) {
             /* Sync chunk cache */
-            mcache_sync(info->chk_cache);
+            if (mcache_sync(info->chk_cache) == RET_ERROR)
+                flush_failed = TRUE;
 #ifdef STATISTICS
             /* cache statistics if 'mcache.c' complied with -DSTATISTICS */
             mcache_stat(info->chk_cache);
 #endif
             /* close chunk cache */
-            mcache_close(info->chk_cache);
+            if (mcache_close(info->chk_cache) == RET_ERROR)
+                flush_failed = TRUE;
         } /* cache not empty */
 
         /* clean up chunk table lists and info record here */
@@ -3431,6 +3434,10 @@ HMCPcloseAID(accrec_t *access_rec /* IN:  access record of file to close */)
 
         free(info);
         access_rec->special_info = NULL;
+
+        /* dirty chunks that could not be written are lost: the caller has to know */
+        if (flush_failed)
+            HGOTO_ERROR(DFE_CANTFLUSH, FAIL);
     } /* attached to info */
 
 done:
